@@ -120,18 +120,26 @@ def run(ck, rng, tier):
             ck.count("designed integer data with cells equal to their column mean")
         elif c == 12:
             # autoscaling (and the other scalings) of columns of which ONE has a scale within 1e-3 of 1 but not 1 (standard
-            # deviation 1.0008): it is divided by its scale like every other column
+            # deviation / root mean square 1.0008): it is divided by its scale like every other column; retried until the
+            # preprocessed matrix has a separated spectrum (the components are then judged)
             scaling, mag, nproc = rng.choice((1, 1, 2)), 1.0, 1
-            X, s = gen_separated(rng, n, m, 1.0)
-            j_ = rng.randrange(m)
-            cj = X[:, j_] - X[:, j_].mean()
-            stat = cj.std(ddof=1) if scaling == 1 else math.sqrt(((cj + 3.0) ** 2).mean())
-            X[:, j_] = (cj * (1.0008 / cj.std(ddof=1)) if scaling == 1 else (cj + 3.0) * (1.0008 / stat))
-            for k_ in range(m):
-                if k_ != j_:
-                    X[:, k_] = (X[:, k_] - X[:, k_].mean()) * rng.choice((3.0, 0.2, 7.5)) + rng.uniform(-2, 2)
+            n, m = rng.randint(8, 10), rng.randint(3, 5)
+            for _try in range(200):
+                X, s = gen_separated(rng, n, m, 1.0)
+                j_ = rng.randrange(m)
+                cj = X[:, j_] - X[:, j_].mean()
+                if scaling == 1:
+                    X[:, j_] = cj * (1.0008 / cj.std(ddof=1)) + rng.uniform(-2, 2)
+                else:
+                    X[:, j_] = (cj + 3.0) * (1.0008 / math.sqrt(((cj + 3.0) ** 2).mean()))
+                for k_ in range(m):
+                    if k_ != j_:
+                        X[:, k_] = (X[:, k_] - X[:, k_].mean()) * rng.choice((3.0, 0.2, 7.5)) + rng.uniform(-2, 2)
+                w_ = np.sort(np.linalg.eigvalsh(preprocess(X, scaling).T @ preprocess(X, scaling)))[::-1]
+                if len(w_) >= 3 and w_[1] / w_[0] <= 0.35 and w_[2] / w_[1] <= 0.35:
+                    break
             ck.count("one column scale within 1e-3 of 1")
-        npc = rng.randint(1, min(3, len(s))) if c not in (10, 11) else (7 if c == 10 else 3)
+        npc = rng.randint(1, min(3, len(s))) if c not in (10, 11, 12) else (7 if c == 10 else (3 if c == 11 else 2))
         # the property presumes rank >= number of components AFTER preprocessing (a column whose scale
         # falls inside the zero guard is dropped by the preprocessing; centring costs one rank)
         E0_ = preprocess(X, scaling)
@@ -199,6 +207,15 @@ def run(ck, rng, tier):
             order = np.argsort(-w)
             w, V = w[order], V[:, order]
             tr = w.sum()
+            # the scores are the projections of the DOCUMENTED preprocessed data (independent computation) deflated by the model's own
+            # earlier components: what is decomposed is the cross-product matrix the property names
+            Ek_, nrm_ = E0.copy(), max(np.abs(E0).max(), 1e-300)
+            for k in range(npc):
+                if np.abs(Ek_ @ P[:, k] - T[:, k]).max() > 1e-7 * nrm_ * max(1, m):
+                    ck.fail("PCA", "scores_not_projections_of_preprocessed_data", "component %d: max |t - E_k p| = %.3g for the documented preprocessing of option %d (shape %dx%d)"
+                            % (k + 1, np.abs(Ek_ @ P[:, k] - T[:, k]).max(), scaling, n, m), {"X": X.tolist(), "scaling": scaling, "npc": npc})
+                    break
+                Ek_ = Ek_ - np.outer(T[:, k], P[:, k])
             # only components whose eigenvalue is separated from the next (ratio of singular values <= 0.9) are judged
             for k in range(npc):
                 if k + 1 < len(w) and w[k + 1] / w[k] > 0.81 + 1e-9:
@@ -208,10 +225,19 @@ def run(ck, rng, tier):
                 share = 100 * w[k] / tr
                 cosang = abs(float(P[:, k] @ V[:, k]))
                 # a component carrying less than 1e-12 of the trace is resolved less sharply (rounding of the larger ones)
-                if abs(ve[k] - share) > 0.05 or cosang < 1 - 1e-5 * max(1.0, 1e-12 * tr / w[k]):
+                # accuracy implied by the stopping rule (squared relative score change < 1e-10) for a component whose eigenvalue ratio to
+                # the next is <= 0.81: direction error <= 1e-5 / (1 - 0.81), i.e. 1 - |cos| <= 1.4e-9, explained variance to ~1e-7 points
+                # stopping rule: sum (t - t_old)^2 / (n sum t^2) < 1e-10, i.e. a relative score change below sqrt(n 1e-10); with the
+                # largest eigenvalue ratio r among the components judged so far the direction error of component k is bounded by
+                # about (k+1) * that / (1 - r) (the errors of the earlier components are inherited through the deflation; factor 3
+                # margin); judged on 1 - |cos| = angle^2 / 2, never below 2e-8
+                r_ = max([(w[q + 1] / w[q]) for q in range(k + 1) if q + 1 < len(w)] or [0.0])
+                angtol = 3.0 * (k + 1) * math.sqrt(n * 1e-10) / (1.0 - r_)
+                costol = max(2e-8, angtol ** 2 / 2.0) * max(1.0, 1e-9 * tr / w[k])
+                if abs(ve[k] - share) > 2e-3 or cosang < 1 - costol:
                     small = mag <= 0.05 and scaling in (0, -1)
                     ck.fail("PCA", "not_principal_axis_small_magnitude" if small else "not_principal_axis",
-                            "component %d: explained variance %.6f (eigenvalue share %.6f), |cos(loading, eigenvector)| = %.8f; shape %dx%d scaling %d magnitude %g"
+                            "component %d: explained variance %.6f (eigenvalue share %.6f), |cos(loading, eigenvector)| = %.10f; shape %dx%d scaling %d magnitude %g"
                             % (k + 1, ve[k], share, cosang, n, m, scaling, mag),
                             {"X": X.tolist(), "scaling": scaling, "npc": npc, "magnitude": mag})
                     break
